@@ -214,6 +214,16 @@ def write_obligations(names) -> list[str]:
                     f'  {n}_c02_countermodel_fo arg s.tab (Props.Search.search_run_deriv {S} arg s hr) b (List.mem_of_getElem? hb)',
                     f'    ({n}_completed_is_saturated_fo s (Props.Search.inv_reachable {S} arg s hr) (Props.Search.invq_reachable {S} arg s hr)',
                     f'      bi b hb hopen htq hnone hq hlim hclim hcl hident) hg']
+        if search_reach and n not in side_bad and _has('Ptx/Proofs/SearchLegalT.lean', 'def templatesQOKB') and _has('Ptx/Props/Search.lean', 'theorem search_terminates_prop_nonframe '):
+            lines += [
+                f'/-- side conditions of the progress theorems (target_legal_closure / _table / _quant, search_progress) for {n}: the regenerated',
+                f'    closure table is monotone and every regenerated rule template instantiates -/',
+                f'theorem {n}_search_progress_side : Search.closureMonoB {S} = true ∧ Search.templatesOKB {S} = true ∧ Search.templatesQOKB {S} = true := by',
+                f'  decide +kernel',
+                f'/-- termination of the search model for {n} on propositional arguments (applications other than access-rule steps) -/',
+                f'theorem {n}_search_terminates (arg : Argument) (hp : arg.isProp = true) (nT nF : Nat) (s : Search.SState)',
+                f'    (h : Search.ReachTF Gen.{n} arg nT nF s) : nT ≤ termBound Gen.{n} {W} arg ∧ s.tab.allProp ∧ s.tab.noQuit :=',
+                f'  Props.Search.search_terminates_prop_nonframe Gen.{n} {W} ObMeasure.{n}_measure_tf ObMeasure.{n}_tfrows arg hp nT nF s h']
         if search_sound and n not in known_unsound:
             lines += [
                 f'/-- the VALID verdict of the search model for {n}: in a reachable state with every branch closed no interpretation is a countermodel -/',
